@@ -47,6 +47,7 @@ def run(ctx: Ctx):
     )
     ctx.guarded(output_degree, ctx)
     ctx.guarded(rank_clipped, ctx)
+    res.rule("SVD-OF-UNFOLDING", "dimensional analysis: every matrix handed to an SVD inside tensor_train / tensor_ring / partial_tucker has degree exactly 1 in the data (an unfolding of the tensor or of its projection / remainder), on every branch: factorising a Gram matrix (degree 2) instead squares the condition number", floor=4)
     res.rule("NO-RECAST", "no value computed from an SVD inside tensor_train / tensor_ring / partial_tucker is re-typed to the context or dtype of the data argument (tl.tensor(v, **tl.context(data)), v.astype(data.dtype), dtype=data.dtype): the property quantifies over integer tensors, whose floating-point cores / factors such a cast truncates", floor=3)
     ctx.guarded(no_recast, ctx)
 
@@ -68,6 +69,18 @@ def output_degree(ctx: Ctx):
         ev = Evaluator(ctx, f, {})
         ev.ctx_returns = dict(rets)
         ev.run(env)
+        # SVD-OF-UNFOLDING: what is factorised is the (projected) data itself, of degree 1 -- not its Gram matrix
+        seen_svd = set()
+        for call_node, d_arg in ev.svd_args:
+            if id(call_node) in seen_svd:
+                continue
+            seen_svd.add(id(call_node))
+            if isinstance(d_arg, Top) and d_arg.lost:
+                raise AnalysisError(f"SVD-OF-UNFOLDING: the degree of the matrix factorised at `{src(call_node)[:60]}` in {qname} could not be computed ({d_arg.why}); cannot decide")
+            ok_svd = d_arg == {"X": ONE}
+            res.instance("SVD-OF-UNFOLDING", f"{label}: {src(call_node)[:60]}", sample={"degree_of_the_factorised_matrix": fmt(d_arg), "ok": ok_svd})
+            if not ok_svd:
+                ctx.finding("SVD-OF-UNFOLDING", f, call_node, f"[{label}] the matrix factorised at `{src(call_node)[:80]}` has degree {fmt(d_arg)} in the data instead of 1: it is not an unfolding of the (projected) tensor but, e.g., its Gram matrix A A^H, whose singular values are the squares -- components below sqrt(machine epsilon) * sigma_max are lost to rounding, so the decomposition is no longer exact to rounding error for ranks that keep them", construct=f"{f.name}: SVD of a degree-{fmt(d_arg)} matrix")
         n = 0
         for node, v, _ in ev.raw_returns:
             lst, head = None, {}
